@@ -321,9 +321,6 @@ func c01GenCase(r *vu.RNG) string {
 }
 
 func c01Generate(r *vu.RNG, n int, emit func(string)) {
-	// vu.NewRNG(seed) starts consecutive seeds one step apart on the same splitmix64 stream, which
-	// made VERIF_SEED=1,2,3 generate (almost) the same cases: restart from a mixed output instead.
-	r = vu.NewRNG(r.U64() ^ 0x5bd1e9955bd1e995)
 	for _, s := range []string{
 		"root 0 H",
 		"root 1 H",
